@@ -1398,8 +1398,10 @@ func (c *Cluster) pin(
 		return pin, false, errors.New("bad pin object")
 	}
 
-	// Handle pin updates when the option is set
-	if update := pin.PinUpdate; update != cid.Undef && !update.Equals(pin.Cid) {
+	// Handle pin updates when the option is set. Re-pinning an existing
+	// pin away from a peer (blacklist set) is not an update: the pin must
+	// be re-allocated, not copied again from the pin it was updated from.
+	if update := pin.PinUpdate; update != cid.Undef && !update.Equals(pin.Cid) && len(blacklist) == 0 {
 		pin, err := c.PinUpdate(ctx, update, pin.Cid, pin.PinOptions)
 		return pin, true, err
 	}
